@@ -16,7 +16,7 @@ Variables (tol brk : F).
 Definition exA : mat F := [:: [:: 1; 1]; [:: 1; 1]].
 Definition exInit : cols F := [:: [:: 1; 0]].
 Definition exG : lz_args F :=
-  MkArgs true (tensor_mm (ArR F) 1 [:: exA]) 2 2 [::] (Some (MkInit true [::] 2 1 exInit)) 1 [::] tol brk 10 true.
+  MkArgs true (tensor_mm (ArR F) 1 [:: exA]) 2 2 [::] (Some (MkInit true false [::] 2 1 exInit)) 1 [::] tol brk 10 true.
 
 Lemma ex_satisfiable :
   exists o,
